@@ -17,7 +17,7 @@ from vlib import mmgen
 WORDS = ["some", "thing", "other", "value", "data", "spec", "url", "id", "x", "item", "range", "kind", "a1", "b"]
 
 SCOPE_KINDS = [
-    "two-classes", "class-vs-enumeration", "two-enumerations", "type-vs-interface",
+    "two-classes", "class-vs-enumeration", "two-enumerations", "type-vs-interface", "class-vs-enumeration-literal",
     "two-literals", "two-own-properties", "own-vs-inherited-property", "property-vs-method",
     "two-constants", "two-functions", "constant-vs-function",
 ]
@@ -235,7 +235,7 @@ def planted_specs(draw: Any, kind: Optional[str] = None) -> Planted:
         kind = draw(st.sampled_from(SCOPE_KINDS))
     methods = []  # type: List[Method]
     capital = kind in ("two-classes", "class-vs-enumeration", "two-enumerations", "type-vs-interface", "two-literals",
-                       "two-constants")
+                       "two-constants", "class-vs-enumeration-literal")
     if kind == "constant-vs-function":
         capital = False
     a, b, style = draw(identifier_pairs(capital_first=capital, control=control))
@@ -263,6 +263,20 @@ def planted_specs(draw: Any, kind: Optional[str] = None) -> Planted:
         n1, n2 = spec.classes[i].name, spec.classes[j].name
         rename_type(spec, n1, a)
         rename_type(spec, n2, b)
+    elif kind == "class-vs-enumeration-literal":
+        # Go declares the literals as package-level constants <Enumeration><Literal>
+        if not spec.enums:
+            _add_enum(spec, "Extra_enumeration")
+        e = draw(st.sampled_from(spec.enums))
+        n1 = e.name
+        rename_type(spec, n1, a)
+        lit = e.literals[draw(st.integers(0, len(e.literals) - 1))][0]
+        new_lit = b if control else draw(st.sampled_from(["Lit", "Other_lit", "X1"]))
+        rename_literal(spec, a, lit, new_lit)
+        c = draw(st.sampled_from(spec.classes))
+        b = f"{a}_{new_lit}" if not control else f"{a}_and_{new_lit}"
+        style = "enumeration+literal" if not control else "control:enumeration+and+literal"
+        rename_type(spec, c.name, b)
     elif kind == "class-vs-enumeration":
         if not spec.enums:
             _add_enum(spec, "Extra_enumeration")
